@@ -65,6 +65,8 @@ class Report:
             core.log("INCONCLUSIVE property=%s query=%s %s" % (self.pid, r["name"], r.get("detail", "")[:300]))
         for r in mach:
             core.log("MACHINERY-ERROR property=%s query=%s %s" % (self.pid, r["name"], r.get("detail", "")[:600]))
+            if r.get("inputs"):
+                core.log("  inputs: " + " ".join("%d=%d" % (k, v) for k, v in sorted(r["inputs"].items())))
         total_solver = sum(r.get("wall", 0.0) for r in self.results)
         samples = []
         for r in (viol[:3] + held[:6]):
